@@ -273,10 +273,20 @@ func (ex *Explorer) concretize(fr *frame, t *Term, lo, hi int64) int64 {
 			}
 		}
 		if full() && v <= hi {
-			// are there further feasible values? (only to report the truncation honestly)
+			// K smallest values found; add the largest feasible value (a length field that
+			// takes "everything that remains" is the other interesting extreme)
 			rest := mkBAnd(mkCmp(OpSle, mkConst(t.w, uint64(v)), t), mkCmp(OpSle, t, mkConst(t.w, uint64(hi))))
 			if ok, _ := ex.feasible(rest); ok {
 				ex.stats.ConcTruncated++
+				if hi-v <= 4096 {
+					for w := hi; w >= v; w-- {
+						if ok, u := ex.feasible(mkEq(t, mkConst(t.w, uint64(w)))); ok {
+							vals = append(vals, uint64(w))
+							unk = unk || u
+							break
+						}
+					}
+				}
 			}
 		}
 	}
